@@ -1,52 +1,50 @@
 //! C13 — the zero-copy decoder agrees with the owned decoder.
+//!
+//! Running both decoders in one query does not finish under CBMC, so agreement is decided as a chain
+//! through the independent reference: C01 (`c01_dec__*`) decides that the owned decoder returns
+//! variant K denoting value r on the reference bytes; here the zero-copy decoder followed by
+//! `to_owned()` must return the same variant K denoting the same r on the same bytes.  For these
+//! leaf/depth-1 shapes "same variant and same denoted value" is structural equality.  On every
+//! proper prefix (symbolic cut) the zero-copy decoder must reject with an offset inside the input.
 use crate::refetf::*;
 use crate::terms::*;
 use crate::vassert;
 use crate::vk;
-use erltf::OwnedTerm;
 
-/// both decoders on `bytes`; `r` is the value when `bytes` is a complete modern encoding of it
-pub fn agree(bytes: &[u8], r: Option<&RV>) {
-    let b = erltf::decode_borrowed(bytes);
-    let o = erltf::decode(bytes);
-    match (&b, &o) {
-        (Ok(t), Ok(u)) => {
-            let t2 = t.to_owned();
-            vassert!(std::mem::discriminant(&t2) == std::mem::discriminant(u), "L:to_owned_same_variant_as_owned");
-            if let Some(r) = r {
-                vassert!(denotes(&t2, r), "L:borrowed_result_denotes_value");
-                vassert!(denotes(u, r), "L:owned_result_denotes_value");
-            }
-            vk::leak(t2);
-        }
-        (Ok(_), Err(_)) => vassert!(false, "L:borrowed_accepts_implies_owned_accepts"),
-        (Err(e), Ok(_)) => {
-            // modern-tag input accepted by the owned decoder must be accepted by the zero-copy one
-            vassert!(false, "L:modern_input_accepted_by_owned_is_accepted_by_borrowed");
-            vassert!(e.context.byte_offset <= bytes.len(), "L:error_offset_within_input");
-        }
-        (Err(e), Err(_)) => {
-            vassert!(r.is_none(), "L:complete_modern_encoding_accepted");
-            vassert!(e.context.byte_offset <= bytes.len(), "L:error_offset_within_input");
-        }
-    }
-    vk::leak(b);
-    vk::leak(o);
-}
-
-pub fn complete(r: &RV, int_mode: u8, digits: usize, bits_mode: u8) {
+pub fn complete(r: &RV, int_mode: u8, digits: usize, bits_mode: u8, kind: u8) {
     let mut out = Out::new();
     out.push(131);
     emit(r, &Alt { int: int_mode, pad: digits, bits: bits_mode, ..MODERN }, &mut out);
-    agree(out.bytes(), Some(r));
+    match erltf::decode_borrowed(out.bytes()) {
+        Ok(t) => {
+            let o = t.to_owned();
+            vassert!(kind_of(&o) == kind, "L:to_owned_same_variant_as_owned_decoder");
+            vassert!(denotes(&o, r), "L:to_owned_denotes_same_value_as_owned_decoder");
+            vk::leak(o);
+            vk::leak(t);
+        }
+        Err(e) => {
+            vassert!(false, "L:modern_input_accepted_by_owned_is_accepted_by_borrowed");
+            vassert!(e.context.byte_offset <= out.n, "L:error_offset_within_input");
+            vk::leak(e);
+        }
+    }
 }
 
-/// every proper prefix of the encoding (cut at a symbolic offset) is treated alike by both decoders
-pub fn truncated(r: &RV, int_mode: u8, digits: usize, bits_mode: u8) {
+pub fn truncated(r: &RV, int_mode: u8, digits: usize, bits_mode: u8, _kind: u8) {
     let mut out = Out::new();
     out.push(131);
     emit(r, &Alt { int: int_mode, pad: digits, bits: bits_mode, ..MODERN }, &mut out);
     let k = vk::usize();
     vk::assume(k < out.n);
-    agree(&out.b[..k], None);
+    match erltf::decode_borrowed(&out.b[..k]) {
+        Ok(t) => {
+            vassert!(false, "L:proper_prefix_rejected");
+            vk::leak(t);
+        }
+        Err(e) => {
+            vassert!(e.context.byte_offset <= k, "L:error_offset_within_input");
+            vk::leak(e);
+        }
+    }
 }
